@@ -250,7 +250,13 @@ class CropperMonitor:
             fmax, fmin = m["fmax"], m["fmin"]      # the public band edges, as the specification says
             if fmin <= 0 or ref <= 0:
                 return
-            start, stop, amb, _ = oracles.coherent_crop(oracles.dm_value(dm), fmax, fmin, ref, m["rate"], N)
+            ref_q = kwargs.get("ref_freq")
+            zero_exact = False
+            if ref_q is not None:
+                for edge in (z.min_freq, z.max_freq):
+                    if ref_q.unit == edge.unit and ref_q.value == edge.value:
+                        zero_exact = True
+            start, stop, amb, _ = oracles.coherent_crop(oracles.dm_value(dm), fmax, fmin, ref, m["rate"], N, zero_exact)
             if amb:
                 ctx.count("ambiguous[coherent_integer_delay]")
                 return
